@@ -110,6 +110,26 @@ def enriched():
     H.append(Line([], "empty"))
     H.append(Line([P("hash", "#"), P("dir", "endif")], "endif"))
     out.append({"ftype": ".h", "fname": fname, "pre": pre, "lines": H, "text": norm.render(pre + H), "ids": ("enriched-h",)})
+    # one-letter names that coincide with the naming prefixes (s, u, e, t, g): tags and variables
+    fname = "tags.h"
+    hdr = norm.preamble(".h", fname)
+    T = []
+    for kw, tag, cls in (("struct", "s", "struct"), ("union", "u", "union"), ("enum", "e", "enum")):
+        T.append(Line([P("type", kw), SP(), ID(cls, tag)], "tbhead"))
+        T.append(Line([P("lbrace", "{")], "lbrace"))
+        if kw == "enum":
+            T.append(Line(IND(1) + [ID("enumr", "E_ONE"), P("comma", ",")], "enumr", 1))
+            T.append(Line(IND(1) + [ID("enumr", "E_TWO")], "enumr", 1))
+        else:
+            T.append(Line(norm.decl_pieces("int", 0, "g", "", 13, 1, cls="member") + [P("semi", ";")], "field", 1))
+            T.append(Line(norm.decl_pieces("char", 1, "t", "", 13, 1, cls="member") + [P("semi", ";")], "field", 1))
+        T.append(Line([P("rbrace", "}"), P("semi", ";")], "tbend"))
+        T.append(Line([], "empty"))
+    T.append(Line(norm.sig_line("", "int", 0, "ft_s", [("int", 0, "s", ""), ("int", 0, "u", ""), ("int", 0, "e", "")], proto_col=5)
+                  + [P("semi", ";")], "proto"))
+    T.append(Line([], "empty"))
+    T.append(Line([P("hash", "#"), P("dir", "endif")], "endif"))
+    out.append({"ftype": ".h", "fname": fname, "pre": hdr, "lines": T, "text": norm.render(hdr + T), "ids": ("one-letter-names",)})
     # a header whose guard lacks its #define and that defines a macro *containing* the guard name (names of a file
     # may be substrings of one another: a spelling coincidence no rule may depend on)
     fname = "grid.h"
